@@ -56,6 +56,7 @@ typedef struct { long a, b; char kind; long slot; char slotk; } ev_t;   /* tree:
 static ev_t             evs[MAXLOG];
 static volatile long    nev;
 static unsigned         fake_nw;
+static unsigned         wd_secs = 15;   /* per-case watchdog; C12_ALARM overrides (scaled by the check to the machine load) */
 
 /* M3 */
 static __thread int     m3_tid = -1;
@@ -235,6 +236,7 @@ int main(void)
 {
     static char line[1 << 12];
     signal(SIGALRM, on_alarm);
+    if (getenv("C12_ALARM")) { wd_secs = (unsigned)atoi(getenv("C12_ALARM")); if (wd_secs < 5) wd_secs = 5; }
     if (qthread_initialize() != 0) { printf("INITFAIL\n"); return 2; }
     printf("H %u %u\n", (unsigned)(qthread_num_shepherds)(), (unsigned)(qthread_num_workers)());
     fflush(stdout);
@@ -246,7 +248,7 @@ int main(void)
             if (!f) { printf("ERR\n"); fflush(stdout); continue; }
             nlog = 0; nev = 0; active = 0; ncalls = 0; fake_nw = fnw;
             yield_every = ((line[0] == 'B') && !strcmp(fl, "simple")) ? 0 : ye;   /* SPAWN_SIMPLE tasks may not yield */
-            alarm(15);
+            alarm(wd_secs);
             f(st, sp, cb, NULL);
             long act = active, nc = ncalls;
             alarm(0);
@@ -260,7 +262,7 @@ int main(void)
             sscanf(line + 1, "%31s %zu %zu %zu %zu %d %u %d", fl, &st, &sp, &incr, &chunk, &mode, &fnw, &ye);
             qt_loop_queue_type ty = !strcmp(fl, "chunk") ? CHUNK : !strcmp(fl, "guided") ? GUIDED : !strcmp(fl, "factored") ? FACTORED : TIMED;
             nlog = 0; nev = 0; active = 0; ncalls = 0; fake_nw = fnw; yield_every = ye;
-            alarm(15);
+            alarm(wd_secs);
             qqloop_handle_t *h = qt_loop_queue_create(ty, st, sp, incr, cb, NULL);
             if (chunk && (ty == CHUNK)) qt_loop_queue_setchunk(h, chunk);
             printf("K %zu\n", h->stat.chunksize);
